@@ -32,7 +32,7 @@ Proof.
     eapply IH; eauto.
   - destruct (N.compare y z) eqn:E2; try discriminate.
     + apply N.compare_eq in E2. subst z. rewrite E1. reflexivity.
-    + assert (x < z) by (apply N.compare_lt_iff in E1; apply N.compare_lt_iff in E2; lia).
+    + assert (H : x < z) by (eapply N.lt_trans; [apply N.compare_lt_iff; exact E1 | apply N.compare_lt_iff; exact E2]).
       apply N.compare_lt_iff in H. rewrite H. reflexivity.
 Qed.
 
